@@ -40,7 +40,11 @@ RULE = ("a case is one operation of a generated call history over a pool of 6-8 
         "name and absent, every simple font type, every predefined CMap; per document: page 0 ends with unpainted path "
         "segments / unbalanced q / changed line width / dangling operands, later pages begin with a stray Q and painted "
         "shapes, use font and XObject names only the previous page defines, show text before any Tf; observables "
-        "include shapes (LTRect/LTLine/LTCurve with points, width, colours, original path); operations: extract_text / extract_pages / "
+        "include shapes (LTRect/LTLine/LTCurve with points, width, colours, original path); every pool holds >= 2 "
+        "pairs of composite fonts of ONE character collection in horizontal and vertical writing (Identity-H/V and "
+        "predefined -H/-V CMaps) whose strings contain codes mapped differently by the two unicode tables; between the "
+        "pools a 'bulk' document (70 000 distinct names, 70 000 distinct unknown operators, 400 content streams, 150 "
+        "fonts) is extracted, ordinary documents before and after it; operations: extract_text / extract_pages / "
         "extract_text_to_fp(text,xml,html,tag) / open-next-close of interleaved page iterators (public generator "
         "and an introspectable pipeline) / page-at-a-time / CMapParser usecmap, each with caching on or off, page "
         "subsets and 4 LAParams variants; distinct = distinct (document bytes, operation, options, position in "
@@ -86,6 +90,7 @@ STATEMENT_STATUS: Dict[str, str] = {
     "C12_interp_reset": "proved: whatever the interpreter was left with by the previous page (unpainted path, unbalanced q, line width, dangling operands), the next page's result is the fresh page",
     "C12_interp_left_independent": "proved: what a page leaves behind does not depend on what it found",
     "curpath_leak_cex": "proved counter-example: init_state without the reset of the current path leaks a shape into the next page",
+    "umap_mode_cex": "proved counter-example: a unicode-map cache keyed by the collection name that holds only the table of the writing mode asked for first gives a later font of the other mode the wrong table (the model's entry holds both tables)",
     "C12_cmap_copy": "proved: extending a private CMap built with usecmap leaves the shared CMap = fresh load",
     "nocopy_cex": "proved counter-example: get_encoding without the copy leaks /Differences into later fonts",
     "shared_cache_cex": "proved counter-example: a memo table answered under another document's fresh function returns the other document's value (font cache keyed by name / manager shared across documents)",
@@ -770,11 +775,14 @@ class Exec:
                     hk, di, o, hd, pos, _dead = ent
                     doc = docs[di]
                     b = self.base[di][o["la"]]
-                    ks = sel_pages(doc.npages, o["pages"])
+                    sp = b["single_pages"]
+                    # page count as the fresh process saw it (it is compared with the generator's in
+                    # check_baseline_self; a baseline that lost pages must not crash the harness)
+                    ks = sel_pages(doc.npages if is_exc(sp) else len(sp), o["pages"])
                     exp = None
                     if pos < len(ks):
-                        sp = b["single_pages"]
-                        exp = sp if is_exc(sp) else sp[ks[pos]] if is_exc(sp[ks[pos]]) else sp[ks[pos]][0]
+                        one = sp if is_exc(sp) else sp[ks[pos]]
+                        exp = one if is_exc(one) else (one[0] if one else None)
                     ent[4] = pos + 1
                     tags["interleaved"] = True
                     if hk == "ll":
@@ -995,7 +1003,9 @@ def bulk_histories(seed: str, docs: List[P.Doc], las) -> List[List[List[Any]]]:
     ops: List[List[Any]] = []
     for d in docs[:nb]:
         ops.append(["text", d.idx, o(d)])
-    ops.append(["pages", nb, o(docs[nb], caching=rng.random() < 0.5)])
+    # through the introspectable pipeline: the object and font caches of the bulk document (hundreds of
+    # entries) are compared with the model after the page and with fresh computations at close
+    ops += [["open", 9, "ll", nb, o(docs[nb])], ["next", 9], ["close", 9]]
     for d in docs[:nb]:
         ops.append(["pages", d.idx, o(d, la=las[d.idx][-1])])
         ops.append(["text", d.idx, o(d, caching=False)])
